@@ -131,7 +131,10 @@ def value_of(x) -> dict:
             v['params'] = 'raised:' + type(e).__name__
         vw = circuit_rec.views(x)
         for k in ('num_operations', 'num_params', 'depth', 'active', 'edges', 'gate_counts', 'dag', 'front', 'rear', 'first_on', 'last_on', 'iter', 'verr'):
-            v['view:' + k] = fld(vw[k] if k != 'verr' else vw[k].split(':')[0])
+            val = vw[k] if k != 'verr' else vw[k].split(':')[0]
+            if k == 'gate_counts':          # a mapping: order of the dict is immaterial
+                val = sorted(val, key=lambda e: json.dumps(e, sort_keys=True))
+            v['view:' + k] = fld(val)
         try:
             if x.dim <= 64:
                 u = np.round(np.asarray(x.get_unitary().numpy), 9) + 0.0
@@ -183,15 +186,20 @@ def value_of(x) -> dict:
 
 def eq_hash(a, b):
     """o == o' and hash(o) == hash(o') where the class defines them."""
-    eq = 'undefined'
-    if type(a).__eq__ is not object.__eq__:
+    def owner(cls, name):
+        for k in cls.__mro__:
+            if name in vars(k):
+                return k.__module__
+        return ''
+    eq = 'undefined'          # equality inherited from collections.abc / object is not BQSKit's equality
+    if owner(type(a), '__eq__').startswith('bqskit'):
         try:
             r = (a == b)
             eq = 'equal' if (bool(r) if not hasattr(r, 'all') else bool(r.all())) else 'differ'
         except Exception:
             eq = 'differ'
     hs = 'undefined'
-    if getattr(type(a), '__hash__', None) is not None and type(a).__hash__ is not object.__hash__:
+    if getattr(type(a), '__hash__', None) is not None and owner(type(a), '__hash__').startswith('bqskit'):
         try:
             hs = 'equal' if hash(a) == hash(b) else 'differ'
         except Exception:
@@ -227,8 +235,12 @@ class Store:
             after[dst] = {'class': 'missing', 'error': err[:80]}
         elif act in ('pickle', 'copy'):
             eq, hs = eq_hash(self.objs[src], self.objs[dst])
+        feat = {}
+        if self.family == 'circuit' and src in self.objs:
+            o = self.objs[src]
+            feat['src_empty_cycle'] = any(all(o.is_point_idle((cy, q)) for q in range(o.num_qudits)) for cy in range(o.num_cycles))
         self.steps.append({'act': act, 'src': src, 'dst': dst, 'before': before, 'after': after, 'eq': eq, 'hash': hs,
-                           'aliased': list(aliased), 'detail': detail, 'err': err})
+                           'aliased': list(aliased), 'detail': detail, 'err': err, 'feat': feat})
 
     def pickle(self, src, dst):
         self.act('pickle', src, dst, lambda: self.objs.__setitem__(dst, pickle.loads(pickle.dumps(self.objs[src]))))
@@ -554,10 +566,8 @@ def workflow_histories():
 # ------------------------------------------------------------------ run
 
 def key_of(h, s, clause, fields):
-    key = {'clause': clause, 'family': h['family'], 'act': s['act'], 'fields': sorted(fields)}
-    if h['family'] == 'circuit':
-        X = None
-        key['fields'] = sorted(f for f in fields)
+    key = {'clause': clause, 'family': h['family'], 'act': s['act'], 'fields': ','.join(sorted(fields))}
+    key.update(s.get('feat', {}))
     if s['act'] == 'become':
         key['deepcopy'] = 'deepcopy' in s.get('detail', '') and 'true' in s.get('detail', '').lower()
     if h['family'] in ('gate', 'operation'):
@@ -594,14 +604,20 @@ def run(ctx: Ctx) -> Outcome:
         hists += passdata_histories(rng, 6 if q else 60)
         hists += workflow_histories()
     cases = [{'steps': [{k: s[k] for k in ('act', 'src', 'dst', 'before', 'after', 'eq', 'hash', 'aliased')} for s in h['steps']]} for h in hists]
-    verdicts, st, tr, _ = common.batch_validate(TSPEC, TCFG, cases, ctx.scratch, chunk=400)
+    chunk = 400
+    verdicts, st, tr, results = common.batch_validate(TSPEC, TCFG, cases, ctx.scratch, chunk=chunk)
     states += st
     trans += tr
+    fieldmap = {}
+    for i, res in enumerate(results):
+        for v in res.prints:
+            if v and v[0] == 'FIELD':
+                f = v[3] if isinstance(v[3], str) else '/'.join(map(str, v[3]))
+                fieldmap.setdefault((i * chunk + v[1] - 1, v[2]), []).append(f)
     for idx, step, clause, extra in verdicts:
         h = hists[idx]
         s = h['steps'][step - 1]
-        fields = extra[0]['set'] if extra and isinstance(extra[0], dict) else []
-        fields = [f if isinstance(f, str) else '/'.join(map(str, f)) for f in fields]
+        fields = sorted(fieldmap.get((idx, step), []))
         src, dst = s['src'], s['dst']
         lines = []
         for f in fields[:8]:
